@@ -23,6 +23,7 @@ FacesWhy(R) ==
   ELSE IF R.likely_safe # (R.lib[1] = 0) THEN "is_likely_safe disagrees with the library verdict"
   ELSE IF \E j \in DOMAIN R.loader : R.loader[j].raised # (R.lib[1] > R.loader[j].t) THEN "checked loader raises/returns against the verdict"
   ELSE IF \E j \in DOMAIN R.loader : R.loader[j].raised /\ R.loader[j].info # R.lib[1] THEN "unsafe-file error carries another severity"
+  ELSE IF R.loader_default_raised # (R.lib[1] > 0) THEN "the checked loader with default arguments disagrees with the verdict (after a closed context / hook cycle)"
   ELSE IF R.opt = "json_bad" THEN (IF (\E i \in 1..n : R.lib[i] # 0) /\ R.cli_rc = 0
                                   THEN "CLI exit status is zero for a flagged file when the report cannot be written" ELSE "ok")
   ELSE IF R.cli_rc # (IF \A i \in 1..n : R.lib[i] = 0 THEN 0 ELSE 1) THEN "CLI exit status disagrees"
